@@ -195,7 +195,7 @@ class Plane:
         -------
         tuple of ints
         """
-        if self.size == 1:
+        if self.mask.ndim < 3:
             return self.mask.shape
         else:
             return self.mask.shape[1], self.mask.shape[2]
@@ -454,7 +454,7 @@ class Plane:
                 # contain only the data within the current mask and not any data 
                 # contained in adjacent masks that may be present in the sliced
                 # amp and opd arrays.
-                mask = self.mask if self.size == 1 else self.mask[n]
+                mask = self.mask if self.mask.ndim < 3 else self.mask[n]
                 amp = self.amplitude * mask[s] if self.amplitude.size == 1 else self.amplitude[s] * mask[s]
                 opd = self.opd if self.opd.size == 1 else self.opd[s]
 
